@@ -405,5 +405,62 @@ func TestDbConc(t *testing.T) {
 		}
 		s.Op(fmt.Sprintf("note dbconc case=%d", i), "ok", true)
 	}
+	// ---- directed groups: the two ways a weakened lock shows
+	m := EnvInt("HX_T", 400)
+	if Thorough() {
+		m = 20000
+	}
+	for i := 0; i < m; i++ {
+		db, _ := ipdb.New(U32IP(base), net.CIDRMask(24, 32))
+		db.SetDynamicRange(U32IP(base+10), U32IP(base+13))
+		// (1) one address, several clients, released at the same instant: exactly one update may succeed
+		k := 3 + r.Intn(4)
+		okc := make([]bool, k)
+		var wg sync.WaitGroup
+		start := make(chan struct{})
+		for j := 0; j < k; j++ {
+			wg.Add(1)
+			go func(j int) {
+				defer wg.Done()
+				<-start
+				okc[j] = db.UpdateClient(U32IP(base+10), []byte{2, 2, 2, byte(j)}, time.Hour) == nil
+			}(j)
+		}
+		close(start)
+		wg.Wait()
+		won := 0
+		for _, b := range okc {
+			if b {
+				won++
+			}
+		}
+		s.Count(fmt.Sprintf("directed/same-address/winners=%d", won))
+		if won != 1 {
+			s.Find(Finding{Property: "C09", Signature: "dbconc-double-grant", Stream: "dbconc",
+				What: "concurrent updates of one address by different clients did not behave as if executed one at a time (several succeeded)",
+				Ops:  []string{fmt.Sprintf("%d concurrent UpdateClient(%s, duid_j, 1h) on an empty database", k, U32IP(base+10))}, Observed: fmt.Sprintf("%d succeeded", won)})
+			s.Find(Finding{Property: "C01", Signature: "dbconc-double-grant", Stream: "dbconc",
+				What: "an address was granted to two clients at the same time (concurrent handlers)",
+				Ops:  []string{fmt.Sprintf("%d concurrent UpdateClient(%s, duid_j, 1h) on an empty database", k, U32IP(base+10))}, Observed: fmt.Sprintf("%d succeeded", won)})
+		}
+		// (2) expired bindings looked up concurrently (a lookup removes what it finds expired: a write)
+		for j := 0; j < 3; j++ {
+			db.UpdateClient(U32IP(base+11+uint32(j)), []byte{3, 3, 3, byte(j)}, time.Nanosecond)
+		}
+		time.Sleep(50 * time.Microsecond)
+		start2 := make(chan struct{})
+		for j := 0; j < 6; j++ {
+			wg.Add(1)
+			go func(j int) {
+				defer wg.Done()
+				<-start2
+				db.LookupClientByDuid([]byte{3, 3, 3, byte(j % 3)})
+				db.UpdateClient(U32IP(base+11+uint32(j%3)), []byte{4, 4, 4, byte(j)}, time.Nanosecond)
+			}(j)
+		}
+		close(start2)
+		wg.Wait()
+		s.Count("directed/expired-lookups")
+	}
 	_ = dhcpmsg.OpReply
 }
